@@ -163,6 +163,15 @@ func cmdEnum(args []string) {
 			nOK++
 		}
 		r["exec"], r["gen"], r["why"], r["compiles"], r["diag"] = false, o.Gen, why, !badc, firstLine(o.Why)
+		roles := map[string]string{b.Mod + "/p": "user"}
+		for k, pkg := range pkgOf {
+			if strings.HasPrefix(k, "es") {
+				roles[b.Mod+"/"+pkg] = "src-enum"
+			} else {
+				roles[b.Mod+"/"+pkg] = "tgt-enum"
+			}
+		}
+		r["imports"], r["decls"] = hx.DescribeFiles(o.Files, roles)
 		obs.Write(r)
 	}
 	recs, _, err := b.RunDriver(drvScen, "seq")
